@@ -40,8 +40,13 @@ class Ctx:
             lines, _ = docgrammar.gen_body(self.rng, self.tracer, features=self.doc_features)
             if self.rng.random() < 0.2:
                 keys = self.rng.sample(["author", "version", "date", "since", "category", "license", "summary"], self.rng.randint(1, 2))
-                meta = [f"{k}: zm{self.tracer}{k[0]}{i}" for i, k in enumerate(keys)]
+                # (keys are not case sensitive)
+                meta = [f"{self.rng.choice([k, k, k.capitalize(), k.upper()])}: zm{self.tracer}{k[0]}{i}" for i, k in enumerate(keys)]
                 self.doc_features.add("metadata")
+                if self.rng.random() < 0.2:
+                    # nothing but one metadata line
+                    self.doc_features.add("metadata_only_one_line")
+                    return meta[:1]
                 if self.rng.random() < 0.5 or lines[0].startswith((" ", "@")) or ":" in lines[0]:
                     meta.append("")
                 lines = meta + lines
